@@ -417,7 +417,7 @@ fn cases_for(
 
 pub fn check(tier: &str) -> i32 {
     let seed = verif_seed();
-    let (n_states, damage_per_state, io_per_state) = if tier == "thorough" { (96, 150, 24) } else { (8, 30, 6) };
+    let (n_states, damage_per_state, io_per_state) = if tier == "thorough" { (24, 80, 12) } else { (8, 30, 6) };
     let start = std::time::Instant::now();
     let jobs = simcore::pool::workers();
     // A state is materialised `replicas` times (at different paths) so that its cases,
